@@ -2,7 +2,7 @@
    Property theorems only; proofs in theories/NcSessionLemmas.v.  [nc_session] replays the read
    loop of driver/netconf/read.go (message delimiting, echo skipping, filing by message-id) and
    the RPC wait of rpc.go over an arbitrary log of chunks / writes / deadlines. *)
-From Scrapli Require Import Bytes BytesLemmas Regex PlatformTypes Generated Channel Netconf NetconfLemmas NcSession NcSessionLemmas.
+From Scrapli Require Import Bytes BytesLemmas Regex PlatformTypes Generated Channel Netconf NetconfLemmas NcSession NcSessionLemmas NcSegLemmas.
 
 (* message-ids: exactly one consecutive id per request actually built, from the generated initial
    id, in order (unique and strictly increasing) — for every operation list and every log *)
@@ -56,6 +56,40 @@ Theorem C08_no_panic : forall v force xh ops log s outs,
   nc_session v force xh ops log = (s, outs) -> ~ In RPanic outs.
 Proof. exact session_no_panic. Qed.
 
+
+(* "a reply the server sent in full is never lost", "for any split of the byte stream into reads":
+   whatever writes the call makes and however the reply to ITS message-id is cut into reads (no
+   read boundary making a proper prefix look complete), the call returns that reply, decoded; the
+   store entry is consumed and the next id is the successor *)
+Theorem C08_reply_never_lost : forall s o p ws0 cs m,
+  n_buf s = [] -> n_panic s = false -> op_payload o = BOk p ->
+  concat cs = m ->
+  (forall k, (k < length cs)%nat -> rx_match (delim_re (n_ver s)) (concat (firstn k cs)) = false) ->
+  rx_match (delim_re (n_ver s)) m = true -> contains END_RPC m = false ->
+  message_id_of m = Z.of_N (n_next_id s) -> Z.of_N (n_next_id s) <> 0%Z ->
+  exists s' r rpce pe,
+    do_rpc s o (map NW ws0 ++ map NR cs)
+    = (s', ROk (Z.of_N (n_next_id s))
+               (ser_raw (serialize (n_ver s) (n_force s) (n_xh s) (n_next_id s) p))
+               (ser_framed (serialize (n_ver s) (n_force s) (n_xh s) (n_next_id s) p))
+               r rpce pe) /\
+    record_fast (n_ver s) m = RecOut r rpce pe.
+Proof.
+  intros s o p ws0 cs m Hb Hp Ho Hc Hpre Hm He Hid Hnz.
+  destruct (reply_never_lost s o p ws0 cs m Hb Hp Ho Hc Hpre Hm He Hid Hnz) as [s' [r [rpce [pe H]]]].
+  exists s', r, rpce, pe. split; [exact (proj1 H)|exact (proj1 (proj2 H))].
+Qed.
+
+(* the filing of one message does not depend on the cut, and leaves every other id's entry alone *)
+Theorem C08_message_any_split : forall v st cs m id,
+  concat cs = m ->
+  (forall k, (k < length cs)%nat -> rx_match (delim_re v) (concat (firstn k cs)) = false) ->
+  rx_match (delim_re v) m = true -> contains END_RPC m = false ->
+  message_id_of m = id -> id <> 0%Z ->
+  exists st', read_chunks v [] st cs = RdKeep [] st' /\ store_get st' id = Some m /\
+              (forall j, j <> id -> store_get st' j = store_get st j).
+Proof. exact message_any_split. Qed.
+
 Print Assumptions C08_ids.
 Print Assumptions C08_own_reply.
 Print Assumptions C08_own_request.
@@ -63,3 +97,5 @@ Print Assumptions C08_complete_message_filed.
 Print Assumptions C08_incomplete_kept.
 Print Assumptions C08_late_reply_harmless.
 Print Assumptions C08_no_panic.
+Print Assumptions C08_reply_never_lost.
+Print Assumptions C08_message_any_split.
